@@ -17,7 +17,8 @@ From W.proofs Require Import Sorter_proofs Ingest_proofs.
 From Coq Require Import Sorting.Sorted Sorting.Permutation.
 Local Open Scope N_scope.
 
-(** For every header, every key choice among the columns (any subset, any order, none),
+(** For every header, every key choice among the columns (any subset, any order, none;
+    no name twice - see C01_bad_key_refused),
     all rows with one cell per column and cells within the limit, every run size, every
     in-memory sort and every arrival order of the blocks: ingestion succeeds, the table
     object is the last write, the stored header is the CSV's (empty names renamed), the
@@ -27,7 +28,7 @@ Local Open Scope N_scope.
     when keys are unique the stored rows are exactly the input rows. *)
 Theorem C01_lossless : forall H sort_rows arrive run_size columns pknames rows,
   sort_ok (length columns) sort_rows -> any_arrival arrive ->
-  incl pknames columns -> wf_rows (length columns) rows -> cells_in_limit rows ->
+  incl pknames columns -> NoDup pknames -> wf_rows (length columns) rows -> cells_in_limit rows ->
   exists pk T tidx w,
     key_indices columns pknames = Some pk /\
     ingest_table H sort_rows arrive run_size columns pknames rows = (IOk T tidx, w) /\
@@ -66,6 +67,20 @@ Example C01_example :
   | IOk T _ => Some (t_pk T, t_rowscount T, rows_of T)
   | _ => None
   end = Some ([0%nat], 3, [[c []; c [49]]; [c [97]; c []]; [c [120]; c [50]]]).
+Proof. vm_compute. reflexivity. Qed.
+
+(** A key that names a column twice, or names something that is no column, is refused
+    with an error before any row is read, and nothing is written.  (Before the repair
+    e2f1265 a repeated key column crashed the process in a worker goroutine.) *)
+Theorem C01_bad_key_refused : forall H sort_rows arrive run_size columns pknames rows,
+  ~ NoDup pknames \/ ~ incl pknames columns ->
+  ingest_table H sort_rows arrive run_size columns pknames rows = (IErrKey, []).
+Proof. exact Ingest_proofs.ingest_bad_key_refused. Qed.
+Print Assumptions C01_bad_key_refused.
+
+Example C01_repeated_key_refused :
+  fst (ingest_table no_hash isort_rows (fun l => l) 4096 [[97]; [98]] [[97]; [97]] [[[50]; [120]]; [[49]; [121]]])
+  = IErrKey.
 Proof. vm_compute. reflexivity. Qed.
 
 (** Non-vacuity of the limit: a 70000-byte cell is refused, a 65535-byte cell is stored. *)
